@@ -59,9 +59,16 @@ def request_of(case):
 
 
 def real_wrap(case):
+    """the real wrapper; [before] = a width for which something else is wrapped first in the same process: the
+    result must not depend on it"""
     from montepy.mcnp_object import MCNP_Object
     with warnings.catch_warnings():
         warnings.simplefilter("ignore")
+        if case.get("before"):
+            try:
+                MCNP_Object.wrap_string_for_mcnp("1 0 -1 imp:n=1 $ " + "x " * 70, VERSIONS[case["before"]], True)
+            except Exception:
+                pass
         try:
             return MCNP_Object.wrap_string_for_mcnp(case["string"], VERSIONS[case["W"]], case["first"])
         except Exception as e:            # compared as the exception class
@@ -103,7 +110,7 @@ def data_text(rng, W, target):
             t = rng.choice(["be-met.40t", "h-h2o.40t", "lwtr.10t", "one-two-three", "a--b", "x-y", "1e-5", "---", "-", "--x"])
         elif r < 0.72:
             t = "w" * rng.choice([1, 20, W - 6, W - 5, W - 4, W, W + 9, 2 * W + 1])
-        elif r < 0.75:
+        elif r < 0.725:
             t = "\t" + gen.fmt_real(rng)
         elif r < 0.78:
             t = rng.choice(["92235.80c", "1001.710nc", "c", "C"])
@@ -133,8 +140,8 @@ def gen_line(rng, W):
         total = rng.choice(near)
         line = data + "$" + rng.choice(["", " ", " "]) + comment_text(rng, max(0, total - len(data)))
     elif kind == "cline":
-        ind = rng.choice(["", "", "", " ", "    ", "     ", "          ", "\t"])
-        mark = rng.choice(["c ", "c ", "C ", "c", "c  ", "c\t"])
+        ind = rng.choice(["", "", "", "", "", "", " ", "  ", "    ", "    "] + (["     ", "          ", "\t"] if rng.random() < 0.2 else []))
+        mark = rng.choice(["c ", "c ", "c ", "c ", "C ", "C ", "c", "c  ", "c\t"])
         line = ind + mark + comment_text(rng, rng.choice([3] + near))
     elif kind == "blankdollar":
         line = " " * rng.choice([0, 1, 4, 5, 6, 20, W // 2, W - 6, W - 1, W, W + 5]) + "$ " + \
@@ -154,7 +161,7 @@ def gen_string(rng):
     out = [gen_line(rng, W) for _ in range(nlines)]
     if rng.random() < 0.1:
         out.insert(rng.randrange(len(out) + 1), rng.choice(["", "   ", "          "]))
-    return {"W": W, "first": rng.random() < 0.85, "string": "\n".join(out)}
+    return {"W": W, "first": rng.random() < 0.93, "string": "\n".join(out), "before": rng.choice([None, None, 80, 128])}
 
 
 # ---------------------------------------------------------------------------- string oracle (independent rules)
@@ -166,10 +173,10 @@ def _comment_of(l):
     return False, data, dollar or ""
 
 
-def string_oracle_line(line, W, first):
+def string_oracle_line(line, W, first, before=None):
     """One source line wrapped on its own by the real code, judged by the independent rules.
     -> None or (kind, detail)"""
-    real = real_wrap({"W": W, "first": first, "string": line})
+    real = real_wrap({"W": W, "first": first, "string": line, "before": before})
     if isinstance(real, str):
         return ("string-exception", real)
     if not line.strip():
@@ -185,7 +192,12 @@ def string_oracle_line(line, W, first):
     ref_c, ref_data, ref_comment = _comment_of(ref)
     if not out:
         return ("string-line-lost", ref)
+    ref_toks = ref_data.split()
+    # a token longer than a continuation line cannot be written at all: it is cut, and only the characters count
+    unwritable = any(len(t) > W - 5 for t in ref_toks)
     for k, l in enumerate(out):
+        if unwritable:
+            break
         isc = spec.is_comment_line(l)
         if k == 0:
             # the first physical line starts the way the unwrapped line does
@@ -194,8 +206,6 @@ def string_oracle_line(line, W, first):
         elif not (l[:5] == "     " or (isc and ref_c)):
             return ("string-continuation", [k, l[:40]])
     toks = [t for l in out for t in ([] if spec.is_comment_line(l) else spec.split_dollar(l)[0].split())]
-    ref_toks = ref_data.split()
-    unwritable = any(len(t) > W - 5 for t in ref_toks)        # a token longer than a continuation line must be cut
     if toks != ref_toks and not unwritable:
         i = next((i for i, (a, b) in enumerate(zip(toks, ref_toks)) if a != b), min(len(toks), len(ref_toks)))
         return ("string-data-tokens", {"expected": ref_toks[max(0, i - 1):i + 2], "written": toks[max(0, i - 1):i + 3]})
@@ -210,27 +220,34 @@ def string_oracle_line(line, W, first):
 def string_oracle(case):
     """-> None or failure dict (first failing source line)"""
     for line in case["string"].splitlines():
-        r = string_oracle_line(line, case["W"], case["first"])
+        r = string_oracle_line(line, case["W"], case["first"], case.get("before"))
         if r is not None:
             return {"kind": r[0], "detail": r[1], "line": line}
     return None
 
 
-def shrink_line(line, W, first, kind):
-    """greedy: drop words / shorten runs while the same kind of failure stays"""
+def shrink_line(line, W, first, kind, before=None):
+    """greedy: drop whole words (with the blanks after them) and shorten long runs while the same kind of failure
+    stays; two words are never joined"""
     def bad(x):
-        r = string_oracle_line(x, W, first)
+        r = string_oracle_line(x, W, first, before)
         return r is not None and r[0] == kind
     cur = line
     progress = True
     while progress:
         progress = False
-        parts = re.split(r"( +)", cur)
+        parts = re.findall(r"[^ ]+ *| +", cur)
         for i in range(len(parts) - 1, -1, -1):
-            cand = "".join(parts[:i] + parts[i + 1:])
-            if cand != cur and bad(cand):
-                cur = cand
-                progress = True
+            cands = ["".join(parts[:i] + parts[i + 1:])]
+            m = re.match(r"^(.)\1{8,}( *)$", parts[i])
+            if m:                                  # a long run of one character: try it shorter
+                cands.append("".join(parts[:i] + [parts[i][:len(parts[i]) // 2] + m.group(2)] + parts[i + 1:]))
+            for cand in cands:
+                if cand != cur and bad(cand):
+                    cur = cand
+                    progress = True
+                    break
+            if progress:
                 break
     return cur
 
@@ -274,13 +291,30 @@ def problem_case(rng, idx):
     text = gen.render(rng, P, L)
     if rng.random() < 0.6 and not P.get("message"):
         text = lengthen_comments(rng, text, 128)
+    if rng.random() < 0.4 and not P.get("message"):
+        text = indent_card_starts(rng, text, width)
     edits = []
     for _ in range(rng.choice([0, 1, 2, 4])):
         s = rng.choice(P["meta"]["surfaces"])
         edits.append(("surf_const", s, rng.choice([1.23456789012, 123456.789012345, 1e-7 / 3, 7.0])))
     if rng.random() < 0.3:
         edits.append(("title", "T" * rng.choice([10, 79, 80, 127, 128, 200])))
-    return {"text": text, "edits": edits, "layout_width": L["width"]}
+    # both regimes are written in one process, in either order: what was written before must not matter
+    return {"text": text, "edits": edits, "layout_width": L["width"], "order": rng.choice([[128, 80], [80, 128]])}
+
+
+def indent_card_starts(rng, text, width):
+    """start some inputs in columns 2-5 (MCNP allows it): what spills over when they are wrapped must still be a
+    continuation line"""
+    lines = text.split("\n")
+    out = [lines[0]]
+    for l in lines[1:]:
+        if l and not l[0].isspace() and not spec.is_comment_line(l) and rng.random() < 0.35:
+            k = rng.randint(1, 4)
+            if len(l) + k <= width:
+                l = " " * k + l
+        out.append(l)
+    return "\n".join(out)
 
 
 def apply_edits(pr, edits):
@@ -310,8 +344,10 @@ def check_problem(case, stats=None):
         return None
     try:
         apply_edits(pr, case["edits"])
-        out128 = mp.write_problem(pr, "o128.i", (6, 2, 0))
-        out80 = mp.write_problem(pr, "o80.i", (5, 1, 60))
+        outs = {}
+        for W in case.get("order") or [128, 80]:
+            outs[W] = mp.write_problem(pr, "o%d.i" % W, VERSIONS[W])
+        out128, out80 = outs[128], outs[80]
     except Exception as e:
         if stats is not None:
             stats["write_failed"] += 1
@@ -388,9 +424,18 @@ def replay(ctx, path):
 
 # ---------------------------------------------------------------------------- run
 def run(ctx):
+    import time
     n_str = 1500 if ctx.tier == "quick" else 60000
-    n_prob = 140 if ctx.tier == "quick" else 6000
+    n_prob = 600 if ctx.tier == "quick" else 20000
+    timing = {}
+    t0 = time.time()
+
+    def lap(name):
+        nonlocal t0
+        timing[name] = round(time.time() - t0, 1)
+        t0 = time.time()
     ctx.prove()
+    lap("prove")
     ok, log = vlib.coq_make(["Model/Wrap.vo"])
     if not ok:
         ctx.broken_obligations.append({"obligation": "Model/Wrap.vo builds", "detail": log[-800:]})
@@ -407,9 +452,11 @@ def run(ctx):
         cases.append(gen_string(random.Random(f"{ctx.seed}:C10:s:{i}")))
     reqs = [request_of(c) for c in cases]
     answers = vlib.model_ask("Wrap", reqs)
+    lap("model_answers")
     nx, bad = vlib.vm_crosscheck("Wrap", reqs, answers, sample=50 if ctx.tier == "quick" else 300, seed=ctx.seed)
     if bad:
         ctx.broken_obligations.append({"obligation": "extraction cross-check Wrap", "detail": bad[:2]})
+    lap("vm_crosscheck")
     dist = {"W": {80: 0, 128: 0}, "wrapped": 0, "unwrapped": 0, "long_word_cut": 0, "hyphen_chunks": 0,
             "with_dollar": 0, "multi_line_strings": 0, "not_first": 0,
             "overlong_lines": 0, "overlong_c_comment_lines": 0, "overlong_dollar_lines": 0,
@@ -476,22 +523,31 @@ def run(ctx):
         ctx.broken_obligations.append({"obligation": "TextWrapper._split = Wrap.split_ws on hyphen-free text", "detail": sw_bad[:2]})
     if ic_bad:
         ctx.broken_obligations.append({"obligation": "utilities.is_comment = Wrap.is_comment", "detail": ic_bad[:2]})
+    lap("correspondence")
     # ---- the property on the real output of every string case, by the independent rules
-    sd = {"lines_judged": 0, "failing_lines": 0}
-    seen_kinds = {}
+    sd = {"lines_judged": 0, "failing_lines": 0, "failing_kinds": {}}
+    unexplained = 0
     for c in cases:
         for line in c["string"].splitlines():
             sd["lines_judged"] += 1
-            r = string_oracle_line(line, c["W"], c["first"])
+            r = string_oracle_line(line, c["W"], c["first"], c.get("before"))
             if r is None:
                 continue
             sd["failing_lines"] += 1
-            if seen_kinds.get(r[0], 0) >= 4:       # enough examples of this kind were examined
+            sd["failing_kinds"][r[0]] = sd["failing_kinds"].get(r[0], 0) + 1
+            fc = {"kind": r[0], "detail": r[1],
+                  "case": {"W": c["W"], "first": c["first"], "string": line, "before": c.get("before")}}
+            if ctx.attribute(fc):              # every failing line is examined; only unexplained ones are shrunk
+                ctx.fail(fc)
                 continue
-            seen_kinds[r[0]] = seen_kinds.get(r[0], 0) + 1
-            small = shrink_line(line, c["W"], c["first"], r[0])
-            r2 = string_oracle_line(small, c["W"], c["first"])
-            ctx.fail({"kind": r2[0], "case": {"W": c["W"], "first": c["first"], "string": small}, "detail": r2[1]})
+            unexplained += 1
+            if unexplained > 5:
+                continue
+            small = shrink_line(line, c["W"], c["first"], r[0], c.get("before"))
+            r2 = string_oracle_line(small, c["W"], c["first"], c.get("before"))
+            fc2 = dict(fc, kind=r2[0], detail=r2[1], case=dict(fc["case"], string=small))
+            ctx.fail(fc2 if not ctx.attribute(fc2) else fc)
+    sd["unexplained_failing_lines"] = unexplained
     # the multi-line call is the concatenation of the per-line calls
     for c in cases[:300]:
         real = real_wrap(c)
@@ -504,6 +560,7 @@ def run(ctx):
         if parts != real:
             ctx.fail({"kind": "string-lines-not-independent", "case": c, "detail": [real, parts]})
             break
+    lap("string_oracle")
     # ---- whole-problem oracle
     pd = {"problems": 0, "with_edits": 0, "read_failed": 0, "write_failed": 0, "wrapped80": 0,
           "comment_continuations80": 0, "corpus": len(corpus_p)}
@@ -522,6 +579,7 @@ def run(ctx):
                 break
         if 0 <= i < 2:
             ctx.sample({"problem_text": pc["text"][:600], "edits": pc["edits"]})
+    lap("problem_oracle")
     # known findings: replay the committed ones
     for fd in ctx.findings:
         if fd.get("status") == "open" and fd.get("replay"):
@@ -550,4 +608,4 @@ def run(ctx):
                       "80/128 limits) + generated problems laid out near the limit with comments lengthened to the limit and "
                       "number-growing edits; distinct = distinct (W, first, string) or problem text; non-trivial = the string "
                       "was actually wrapped (or a whole problem)",
-                      extra={"input_distribution": dist, "string_oracle": sd, "problem_stream": pd})
+                      extra={"input_distribution": dist, "string_oracle": sd, "problem_stream": pd, "timing_s": timing})
